@@ -177,19 +177,25 @@ func opPrune(variant int) *crashOp {
 		setup: func() (*stores.MemStore, *stores.MapRefStore) {
 			db, rs := stores.NewMemStore(), stores.NewMapRefStore()
 			g := &model.Graph{Parents: [][]int{{}, {0}, {0}, {}}}
-			tblOf := [][]int{{0, 1, 2, 2}, {0, 0, 1, 2}, {2, 1, 0, 1}}[variant]
-			tables := make([][]byte, 4)
+			tblOf := [][]int{{0, 1, 2, 2}, {0, 0, 1, 2}, {2, 1, 0, 1}, {0, 1, 2, 2, 1}, {2, 0, 1, 0, 2}}[variant]
+			times := []int{0, 1, 2, 3}
+			if variant >= 3 {
+				// a chain of three unreachable commits 2 <- 3 <- 4 (a deleted branch with history)
+				g = &model.Graph{Parents: [][]int{{}, {0}, {0}, {2}, {3}}}
+				times = []int{0, 1, 2, 3, 4}
+			}
+			tables := make([][]byte, len(tblOf))
 			for i, t := range tblOf {
 				for _, k := range pool[t].keys {
 					db.PutRaw(k, tableCacheDB.Raw(k))
 				}
 				tables[i] = pool[t].st.sum
 			}
-			sums, err := buildCommits(db, g, []int{0, 1, 2, 3}, tables)
+			sums, err := buildCommits(db, g, times, tables)
 			if err != nil {
 				panic(err)
 			}
-			rs.M["heads/main"] = sums[1] // nodes 2 and 3 are unreachable
+			rs.M["heads/main"] = sums[1] // nodes 2.. are unreachable
 			return db, rs
 		},
 		run: func(db *stores.MemStore, rs *stores.MapRefStore) error { return prune.Prune(db, rs, nil) },
@@ -319,7 +325,7 @@ func c13ops() []*crashOp {
 		opReceive(2, 1, 0),
 		opReceive(2, 1, 1),
 		opReceive(2, 2, 64),
-		opPrune(0), opPrune(1), opPrune(2),
+		opPrune(0), opPrune(1), opPrune(2), opPrune(3), opPrune(4),
 		opMerge(0), opMerge(1),
 	}
 }
@@ -663,7 +669,7 @@ func init() {
 	register(&mc.Check{
 		ID:    "C13",
 		Level: "fault_enumeration",
-		Rule: "library tier: for each of 13 operations (commit of 0/2/300-row tables on a new or existing branch; receive of 1..2-commit transfers with several packfile size limits followed by the ref update; prune of three histories with unreachable commits; two 3-way merge commits) one uninterrupted run on recording stores yields the durable state after EVERY store write (each write is atomic), " +
+		Rule: "library tier: for each of 15 operations (commit of 0/2/300-row tables on a new or existing branch; receive of 1..2-commit transfers with several packfile size limits followed by the ref update; prune of five histories with unreachable commits (two with a chain of three unreachable commits); two 3-way merge commits) one uninterrupted run on recording stores yields the durable state after EVERY store write (each write is atomic), " +
 			"and every such crash state, plus an injected error at every object-store write, is checked: every ref resolves, every stored commit has its parents, every table whose object exists is fully usable (structural oracle), branches point at commits whose table exists; then the same operation is re-run on that state and must succeed and end with exactly the refs (for prune: exactly the objects) of the uninterrupted run. " +
 			"cli tier: the real wrgl binary path (commit, merge, pull, prune) is run as a subprocess that is killed at the k-th write of the Badger / SQLite stores for every k (build-time crash hook), reopened, checked and re-run. evaluations = crash / fault points; distinct by (operation, point)",
 		Assumptions: []string{"a crash is process death between two atomic store writes; torn writes, disk full and fsync reordering inside Badger / SQLite are not modelled", "ingest with more than one worker is covered by C16's schedules, not here"},
